@@ -90,9 +90,7 @@ Lemma fr_send_frame s f t0 : frame_tr t0 s (fst (send_frame s f)).
 Proof. unfold send_frame. destruct (_ && _); [apply frame_refl|]. destruct (tr_closing s); [apply frame_refl|]. fr_simple. Qed.
 Lemma fr_writer_close s code t0 : frame_tr t0 s (fst (writer_close s code)).
 Proof.
-  unfold writer_close. pose proof (fr_send_frame s (FClose code) t0) as H.
-  destruct (send_frame s (FClose code)) as [s1 r]. cbn [fst] in *.
-  eapply frame_trans; [exact H|]. fr_simple.
+  unfold writer_close. eapply frame_trans; [|apply fr_send_frame]. fr_simple.
 Qed.
 Lemma fr_transport_close s t0 : frame_tr t0 s (transport_close s).
 Proof.
@@ -477,18 +475,12 @@ Proof.
         -- left. rewrite trc_finish. apply abnormal_closes. exact L1.
     + destruct fr.
       * destruct (close_read_resume_spec s t kk
-                   (match c_side c with Server => match t_tmo (tasks s t) with Some d => d | None => now s + c_close_tmo c end
-                                         | Client => now s + c_close_tmo c end) L) as [F G].
-        apply wake_ok_good; [|].
-        -- destruct (c_side c); [destruct (t_tmo _)|]; exact F.
-        -- destruct (c_side c); [destruct (t_tmo _)|]; exact G.
+                   (match t_tmo (tasks s t) with Some d => d | None => now s + c_close_tmo c end) L) as [F G].
+        apply wake_ok_good; assumption.
       * apply wake_ok_good; [apply fr_close_exc|left; apply close_exc_closes; exact L].
       * destruct (close_read_resume_spec s t kk
-                   (match c_side c with Server => match t_tmo (tasks s t) with Some d => d | None => now s + c_close_tmo c end
-                                         | Client => now s + c_close_tmo c end) L) as [F G].
-        apply wake_ok_good; [|].
-        -- destruct (c_side c); [destruct (t_tmo _)|]; exact F.
-        -- destruct (c_side c); [destruct (t_tmo _)|]; exact G.
+                   (match t_tmo (tasks s t) with Some d => d | None => now s + c_close_tmo c end) L) as [F G].
+        apply wake_ok_good; assumption.
 Qed.
 
 Lemma inv_lost_ok s : Inv_tr s -> lost_ok s. Proof. intros [H _ _ _ _]. exact H. Qed.
